@@ -47,7 +47,8 @@ PairPool == {IInt(1), IInt(12), IList(<<IInt(1)>>), IList(<<IInt(12), IList(<<II
           IList(<<IId("a"), IInt(1)>>), IList(<<IInt(1), IId("a")>>)}
 CodeVals == CASE CodePool = "atoms" -> AtomPool [] CodePool = "trees" -> TreePool [] CodePool = "pairs" -> PairPool
               [] CodePool = "one" -> {IInt(1)}
-              [] CodePool = "abc" -> {IInt(1), IId("a"), IList(<<IInt(2)>>)}
+              [] CodePool = "abc" -> {IInt(1), IId("a"), IList(<<IInt(2)>>), EmptyList}
+              [] CodePool = "big" -> {IInt(1), EmptyList, IList([i \in 1..120 |-> IInt(i)])}
               [] CodePool = "recs" -> {IInt(1), IList(<<IInt(4), IBool(TRUE), IFloat(FOne)>>),
                                       IList(<<IList(<<IInt(5), IInt(6)>>), IFloat(1073741824), IBool(FALSE), IInt(7)>>)}
 
@@ -58,9 +59,9 @@ IVecVals == IF VecPool = "ids" THEN {<<>>, <<9, 1>>, <<9, 9, 5>>, <<3, 4, 11>>, 
             IF VecPool = "small" THEN {<<>>, <<5>>, <<3, 1, 2>>}
             ELSE {<<>>, <<5>>, <<1, 9>>, <<3, 1, 2>>, <<MaxInt, -1, MinInt, 2>>, <<2, 2, 1, 2>>}
 FVecVals == IF VecPool = "ids" THEN {<<FOne>>} ELSE
-            IF VecPool = "small" THEN {<<>>, <<FOne>>, <<FPosZero, 1073741824>>, <<1077936128, FOne, 1073741824>>}
+            IF VecPool = "small" THEN {<<>>, <<FOne>>, <<FPosZero, 1073741824>>, <<1073741824, FPosZero>>, <<1077936128, FOne, 1073741824>>}
             ELSE {<<>>, <<FOne>>, <<1073741824, FPosZero>>, <<1077936128, FOne, 1073741824>>,
-                  <<FQNaN, FOne, FNegInf, 1056964608>>, <<FNegZero, FPosZero, FOne>>}
+                  <<FQNaN, FOne, FNegInf, 1056964608>>, <<FNegZero, FPosZero, FOne>>, <<1, 981467136, 8388608>>}
 
 PoolSeqs(f) ==
   CASE f = "int"   -> SeqsUpTo(IntVals, DInt)
